@@ -44,7 +44,7 @@ package server
 
 //@ func server.(*serverStream).SendTrailer
 //@   nopanic[C12.nopanic]
-//@   atcall[C06.trailer_shape C03.trailer_status C04.trailers_on_wire] (types.RpcReadWriter).Write :
+//@   atcall[C06.trailer_shape C03.trailer_status C04.trailers_on_wire C02.trailer_status] (types.RpcReadWriter).Write :
 //@     | arg2 != nil && arg2.Id == ss.id && arg2.Header != nil && arg2.Header.Method == ss.method && arg2.Header.Source == ss.src && arg2.Header.Destination == ss.dst
 //@     | && arg2.Body == nil && arg2.Status != nil && arg2.Trailer != nil && arg2.Reset_ == nil && arg1 == ss.ctx
 //@     | && isKvOf(arg2.Trailer.Metadata, ss.protected.trailers)
